@@ -256,6 +256,42 @@ def copies(ctx, R, py, modules):
     return n
 
 
+MUTATOR_NAMES = {"__init__", "__setitem__", "_fromstring", "apply_reaction", "setup", "run", "iterate", "iterate_n", "sample",
+                 "finalize", "is_valid"}     # is_valid stores its error message
+
+
+def query(ctx, R, py, modules):
+    """QUERY -- objects change only through constructors, setters and the named mutators (set_* / reset_* / _set_*, the engine's
+    setup / run / iterate, ...): every other method is a query and stores nothing in `self`.  A query that memoises (a cached
+    view of the data, a remembered count) answers from the cache after the object was changed through its public setters."""
+    n = 0
+    for mn in modules:
+        m = py.mods.get(mn)
+        ctx.need(m is not None, R, "module %s not found" % mn)
+        for f in m.funcs.values():
+            if getattr(f, "_cls", None) is None or "self" not in pyfe.params(f):
+                continue
+            nm = f.name
+            if getattr(f, "_role", "") == "setter" or nm in MUTATOR_NAMES or nm.startswith(("set_", "reset_", "_set_", "_setup")):
+                continue
+            st = []
+            for x in ast.walk(f):
+                tg = x.targets if isinstance(x, ast.Assign) else [x.target] if isinstance(x, (ast.AugAssign, ast.AnnAssign)) else []
+                for t in tg:
+                    b = t
+                    while isinstance(b, (ast.Attribute, ast.Subscript)):
+                        b = b.value
+                    if isinstance(b, ast.Name) and b.id == "self" and t is not b:
+                        st.append(x)
+            n += 1
+            ctx.check(not st, R, st[0] if st else f, f._qual, "query %s stores nothing in self" % nm if not st else pyfe.src(st[0])[:70],
+                      "", "`%s` is not a constructor, a setter or a named mutator, yet it writes `%s`: state kept by a query goes stale "
+                      "when the object is modified through its setters, later queries answer from it" % (
+                          nm, pyfe.src(st[0].targets[0] if isinstance(st[0], ast.Assign) else st[0].target)[:40]) if st else "",
+                      nontrivial=False)
+    return n
+
+
 def run(ctx, pid, py, modules, truth_floor=1):
     from . import truth
     truth.rule(ctx, pid + ".TRUTH", py, modules, floor=truth_floor)
@@ -263,6 +299,7 @@ def run(ctx, pid, py, modules, truth_floor=1):
     npu = pure(ctx, pid + ".PURE", py, modules)
     acc(ctx, pid + ".ACC", py, modules)
     copies(ctx, pid + ".COPY", py, modules)
+    query(ctx, pid + ".QUERY", py, modules)
     nn = names(ctx, pid + ".NAMES", py, modules)
     ctx.floor(pid + ".NAMES", max(1, nn // 2))
     ctx.floor(pid + ".LOSSY", max(1, nl // 2))
